@@ -26,7 +26,7 @@ func init() {
 			"node fan-outs of 255/256/257 children (a prefix key followed by every one-byte continuation) x maxSize around 256; thorough adds sets of 5000 generated keys with 40-byte common prefixes. Non-trivial+distinct = hash of (keys, maxSize) with >= 2 keys.",
 		Assumptions: []string{"non-empty strictly ascending key lists, maxSize >= 1"},
 		Flavours:    releaseAnd386,
-		Required: []string{"arguments-in-read-only-memory", "single-key-list", "maxSize=1", "maxSize>=len", "shard/single-key", "shard/full", "key-equals-common-prefix-of-successors", "split/restart-on-shorter-prefix",
+		Required: []string{"long-run/calls>=100000-per-function", "arguments-in-read-only-memory", "single-key-list", "maxSize=1", "maxSize>=len", "shard/single-key", "shard/full", "key-equals-common-prefix-of-successors", "split/restart-on-shorter-prefix",
 			"first-byte-distinct", "bytes/nul", "bytes/>=0x80", "deep-common-prefix", "fan-out/257-children", "fan-out/256-children", "keys>=40000", "keys>2^18", "maxSize>=2^30", "same-buffer-refilled-in-place"},
 		Families: func(c *mon.Config) []mon.Family {
 			fams := []mon.Family{
@@ -40,6 +40,7 @@ func init() {
 				{Name: "keyzoo", Env: 6, N: c.Pick(10000, 2000000), Run: c17Zoo},
 				{Name: "fan-out", Env: 2, N: 3 * 4 * 3, Run: c17FanOut},
 				{Name: "many-keys", Env: 1, N: c.Pick(2, 40), Run: c17ManyKeys},
+				lrFamily(c17LongRun),
 			}
 			if c.Thorough() {
 				fams = append(fams, mon.Family{Name: "large", N: 2000, Run: c17Large})
